@@ -3,6 +3,7 @@ import numpy as np
 from hypothesis import strategies as st
 
 from vf.engine import Violation, require
+from vf import randomctl
 from vf import strategies as S
 
 ID = "C16"
@@ -14,6 +15,7 @@ RULE = (
     "of up to 3k selections where each step picks ANY plate of the currently allowed set (index drawn by Hypothesis), alternately by "
     "calling filter_eligible_plates directly and through select_next_plate (batch ids as list, tuple, set, frozenset, dict keys or numpy integers) with scores making the pick the unique minimum (disallowed candidates score better still) or with all scored plates exactly tied (the selection must stay within the allowed set and the history follows it); in half the cases every selected plate is revealed in place before the next selection of the batch, as the retrospective pipeline does; plus screens "
     "with a multi-sample plate (must be refused). Non-trivial = history completes >=1 sample and opens a second. distinct = distinct case JSON."
+    ' Also: late-campaign screens (dozens of unobserved plates spread over hundreds of ids) with score entries delivered twice; a generator whose draws repeat in half the cases.'
 )
 ASSUMPTIONS = [
     "histories start from an empty batch and only follow selections the policy itself allowed (the quantifier of the property)",
@@ -47,11 +49,22 @@ def _case(draw):
         "name_keys": draw(st.lists(st.integers(0, 99), min_size=40, max_size=40)),
         "multi": draw(st.integers(0, 7)) == 0,
         "multi_observed": draw(st.booleans()),
+        # some score entries arrive twice (a chunk of scores delivered again after a retry): the holder takes them, the selection must
+        # not be affected
+        "dup_scores": draw(st.booleans()),
     }
 
 
 def strategy(tier):
     return _case()
+
+
+def exhaustive(tier):
+    # a large, mostly observed screen late in a campaign: a few dozen unobserved plates spread thinly over hundreds of plate ids
+    # (one sample with many plates left, others with just k), scores with repeated entries
+    for k, many, obs, picks in [(2, 26, 200, [0, 1, 1, 2]), (3, 40, 150, [5, 1, 2, 1, 0, 4]), (2, 26, 200, [1, 3, 0, 2])] + ([(2, 60, 400, [1, 4, 7, 2]), (1, 30, 300, [2, 9]), (4, 35, 120, [1, 2, 4, 5, 7, 8, 1, 2])] if tier != "quick" else []):
+        samples = [{"unobs": many, "obs": obs, "rows": 1}, {"unobs": k, "obs": obs, "rows": 1}, {"unobs": k, "obs": obs // 2, "rows": 1}]
+        yield {"k": k, "samples": samples, "picks": picks, "via_select": True, "merges": [], "reveal_selected": False, "name_keys": [(i * 37 + 11) % 100 for i in range(40)], "multi": False, "multi_observed": False, "dup_scores": True, "select_every_step": True, "prefer_sample": "s0"}
 
 
 def _build(case):
@@ -108,7 +121,7 @@ def check_case(case):
         g = sorted(g, key=lambda p_: int(p_.plate_id))
         g[b_ % len(g)].merge(g[(b_ + 1) % len(g)])
     policy = KPerSamplePlatePolicy(k)
-    rng = np.random.default_rng(0)
+    rng = randomctl.make_rng(0, [None, None, [0, 1], [0, 1, 1, 0, 0]][len(case["picks"]) % 4])  # (now and then a generator whose draws repeat)
     keys = list(case.get("name_keys", []))
     plates = {int(p.plate_id): p for p in screen.plates}
     sample_of = {}
@@ -185,10 +198,13 @@ def check_case(case):
                 r, _kind = S.call_with_container(lambda b_: select_next_plate(scores=sh, screen=screen, policy=policy, batch_plate_ids=b_, rng=rng), batch, S.CONTAINERS[(step + k) % len(S.CONTAINERS)])
                 require(r is None, "select.none_when_nothing_allowed", "select_next_plate returned a plate although the policy allows none")
             break
-        chosen = got_ids[pick % len(got_ids)]
-        if case["via_select"] and step % 2 == 0:
-            sh = ChunkedScoresHolder(len(candidates))
+        pool_ = [g for g in got_ids if sample_of[g][0] == case.get("prefer_sample")] or got_ids
+        chosen = pool_[pick % len(pool_)]
+        if case["via_select"] and (step % 2 == 0 or case.get("select_every_step")):
             order_ = sorted(candidates, key=lambda c_: (keys[(c_ + step) % len(keys)] if keys else 0, c_))  # not ascending by plate id
+            if case.get("dup_scores"):
+                order_ = order_ + order_[step % 2 :: 2]  # every other entry once more
+            sh = ChunkedScoresHolder(len(order_))
             tie = pick % 3 == 0
             for c in order_:
                 # either the pick is the unique minimum among the allowed plates (disallowed ones score better still), or every
